@@ -16,7 +16,10 @@ uint32_t X_vp_in_live_block(uint8_t*, uint64_t, uint32_t); void X_vp_check_no_le
 uint8_t* X_vp_buf(uint64_t); void X_vp_buf_free(uint8_t*);
 void vp_rt_init(void);
 
-static std::vector<uint64_t> g_in; static size_t g_pos;
+static std::vector<uint64_t> g_in; static size_t g_pos; static std::vector<uint32_t> g_par;
+uint32_t X_vp_param(uint32_t);
+uint32_t vp_native_param(uint32_t k) { return k < g_par.size() ? g_par[k] : 0; }
+int vp_param(int k) { return (int)X_vp_param((uint32_t)k); }
 uint64_t vp_next_input(void) { return g_pos < g_in.size() ? g_in[g_pos++] : 0; }
 void vp_fail(const char* msg) { printf("VP_CHECK_FAIL %s\n", msg); fflush(stdout); _Exit(3); }
 void vp_assume_fail(void) { printf("VP_ASSUME_FAILED\n"); fflush(stdout); _Exit(4); }
@@ -48,6 +51,7 @@ int main(int argc, char** argv) {
     if (argc < 3) { fprintf(stderr, "usage: native <entry> <inputs-file>\n"); return 2; }
     FILE* f = fopen(argv[2], "r");
     if (f) { unsigned long long v; while (fscanf(f, "%llu", &v) == 1) g_in.push_back(v); fclose(f); }
+    if (const char* ps = getenv("VP_PARAMS")) { const char* c = ps; while (*c) { g_par.push_back((uint32_t)strtol(c, (char**)&c, 10)); if (*c == ',') ++c; } }
     void (*fn)(void) = (void (*)(void))dlsym(RTLD_DEFAULT, argv[1]);
     if (!fn) { fprintf(stderr, "no entry %s\n", argv[1]); return 2; }
     vp_rt_init();
